@@ -14,6 +14,9 @@ def oids_for(n):
     return ["1.3.6.1.2.1.2.2.1.%d.%d" % (i, 1000 + i) for i in range(1, 7)]
 
 
+_VAL = [0]
+
+
 def run_history(rec, cfg, script, sid=1, variant=0):
     first = rec.n
     sess = rawdrv.RawSession(rec, cfg, sid=sid)
@@ -54,7 +57,12 @@ def run_history(rec, cfg, script, sid=1, variant=0):
                 sess.recv(op)
                 req = None
                 continue
-            vbs = [(n, ("int", 7)) for n in req.names] if op not in ("getnext", "getbulk") else [(list(req.names[0]) + [1], ("int", 7))]
+            # values rotate through encodings that END in a zero octet (INTEGER 0 / 256, empty and NUL-terminated strings, TimeTicks 0,
+            # x.x.x.0 addresses, counters with a zero low octet): with zero padding the padding cannot be told from content by looking
+            _VAL[0] += 1
+            val = [("int", 7), ("int", 0), ("octets", b""), ("int", 256), ("octets", b"ab\x00"), ("timeticks", 0), ("ip", bytes([10, 0, 0, 0])),
+                   ("counter64", 2 ** 64 - 256), ("int", 65536), ("octets", b"x")][_VAL[0] % 10]
+            vbs = [(n, val) for n in req.names] if op not in ("getnext", "getbulk") else [(list(req.names[0]) + [1], val)]
             vbs = [(bytes(n) if not isinstance(n, list) else bytes(n), v) for n, v in vbs]
             advance()
             sess.inject(agent.reply(cfg, req, vbs))
